@@ -88,7 +88,7 @@ UNIT = Unit(
            requires=[C("pre", "chain_ok(self.0) && state_inv(self.0) && spec_builtin_pools(self.0) && pools_ok(self.0.pools@) && builtins_if_present(self.0) && self.0.height.0 < u64::MAX"),
                      C("env", "forall|n: UnsealedState<C>, txx: Seq<Transaction>| next_rel(self.0, n) && txx.to_set() == block.transactions@ ==> #[trigger] batch_env(n, txx)",
                        note="C09 envelope: the arithmetic envelopes of batch application hold for the block's transactions"),
-                     C("env2", "forall|n: UnsealedState<C>, txx: Seq<Transaction>, mid: UnsealedState<C>| next_rel(self.0, n) && txx.to_set() == block.transactions@ && #[trigger] batch_result(n, txx, mid) ==> seal_env(mid)",
+                     C("env2", "forall|n: UnsealedState<C>, txx: Seq<Transaction>, mid: UnsealedState<C>| next_rel(self.0, n) && txx.to_set() == block.transactions@ && #[trigger] batch_result(n, txx, mid) ==> seal_env(mid) && (spec_tip(mid.network, mid.height, 950000) ==> tip909_env(spec_preseal(mid)))",
                        note="C09 envelope: the arithmetic envelopes of the settlement phases of sealing hold for the block's transactions")],
            ensures=[C("accepted", "res is Ok ==> spec_header(res->Ok_0.0) == block.header && res->Ok_0.1 == block.proposer_action && block_applied(self.0, *block, res->Ok_0.0)", "C06", "C03"),
                     C("wrong_header", "res is Err && res->Err_0 is WrongHeader ==> exists|r: UnsealedState<C>| #[trigger] block_applied(self.0, *block, r) && spec_header(r) != block.header", "C06")],
